@@ -451,7 +451,9 @@ class dispatcher(Generic[_ET]):
 
         disp = self.dispatch._for_instance(obj)
         try:
-            obj.__dict__["dispatch"] = disp
+            # setdefault() so that threads racing on the first access all
+            # end up with the same _Dispatch object
+            disp = obj.__dict__.setdefault("dispatch", disp)
         except AttributeError as ae:
             raise TypeError(
                 "target %r doesn't have __dict__, should it be "
